@@ -18,7 +18,10 @@ Definition default_builder : builder :=
 Inductive op :=
 | OTcp | OUdp (local : option N) | ORelay | OMode (m : mode) | OVerify (v : bool)
 | OAdmin (a : option (list N)) | OReqi (r : N) | OFlags (f : N) | OFlag (i : nat) (enabled : bool)
-| OPrefix (p : option N) | OIname (n : option (list N)) | OInterval (d : option N).
+| OPrefix (p : option N) | OIname (n : option (list N)) | OInterval (d : option N)
+(* any of the setters whose footprint (regenerated, [footprints_tied] below) is disjoint from everything the TCP / UDP handshake
+   reads: relay_select_host, relay_spectator_password, relay_admin_password, relay_websocket, connect_timeout, tcp_nodelay *)
+| OOther.
 
 Definition setter_bit (i : nat) : N := match nth_error gen_flag_setters i with Some (_, b) => b | None => 0 end.
 (* bitflags `set(flag, enabled)`: insert or remove *)
@@ -39,6 +42,7 @@ Definition apply (b : builder) (o : op) : builder :=
   | OPrefix p => {| b_proto := b_proto b; b_mode := b_mode b; b_verify := b_verify b; b_udp_local := b_udp_local b; b_admin := b_admin b; b_flags := b_flags b; b_prefix := p; b_interval := b_interval b; b_iname := b_iname b; b_reqi := b_reqi b |}
   | OIname n => {| b_proto := b_proto b; b_mode := b_mode b; b_verify := b_verify b; b_udp_local := b_udp_local b; b_admin := b_admin b; b_flags := b_flags b; b_prefix := b_prefix b; b_interval := b_interval b; b_iname := n; b_reqi := b_reqi b |}
   | OInterval d => {| b_proto := b_proto b; b_mode := b_mode b; b_verify := b_verify b; b_udp_local := b_udp_local b; b_admin := b_admin b; b_flags := b_flags b; b_prefix := b_prefix b; b_interval := d; b_iname := b_iname b; b_reqi := b_reqi b |}
+  | OOther => b
   end.
 
 Definition build (ops : list op) : builder := fold_left apply ops default_builder.
